@@ -158,6 +158,8 @@ class State:
         s.arrs = dict(self.arrs)
         s.pc = list(self.pc)
         s.known = set(self.known)
+        if getattr(self, "swaps", None):
+            s.swaps = dict(self.swaps)
         return s
 
     def assume(self, t):
@@ -184,7 +186,11 @@ def _merge2(a, b):
         n += 1
     ca = z3.And(*a.pc[n:]) if len(a.pc) > n else z3.BoolVal(True)
     cb = z3.And(*b.pc[n:]) if len(b.pc) > n else z3.BoolVal(True)
+    if getattr(a, "swaps", None) != getattr(b, "swaps", None):
+        raise EvalError("states with different pending byte swaps cannot be joined")
     s = State()
+    if getattr(a, "swaps", None):
+        s.swaps = dict(a.swaps)
     s.pc = a.pc[:n] + [z3.Or(ca, cb)]
     s.known = set(x.get_id() for x in s.pc)
     s.types = dict(b.types)
